@@ -18,8 +18,8 @@ theorem C01_every_parsed_expression_nodated (s : String) (e : Expr) (h : Parser.
 
 /-- **C01 for every parsed expression whose dated ranges are in the rule-level class** `exprDatedPlain`
 (every dated range with a defined meaning and: ANY day offsets between two fixed yearless dates and between two
-bounds with a year, ±30 000 000 days from a start with a year to a yearless end, ±300 000 days when a bound is
-Easter — whatever the size of the
+bounds with a year, a start offset within ±92 000 000 days from a start with a year to a fixed yearless end,
+±300 000 days when a bound is a yearless Easter — whatever the size of the
 shift relative to a year, since the pairing windows are centred on the year of `d - day offset`) -/
 theorem C01_every_parsed_expression_plain (s : String) (e : Expr) (h : Parser.parse s = .ok e)
     (hpl : exprDatedPlain e = true) (ctx : Ctx) (d : Int) (h1 : dateStart ≤ d) (h2 : d < dateEnd) :
